@@ -264,7 +264,7 @@ class CHECK(core.Check):
     PARTIAL = ["C06_bracket_step_partial / C06_bracket_reachable_partial: hypothesis `bad2 = false` on the reached state "
                "(ghost flags: `left` = exitAll or a taken transition worked on a truncated outline, `reenter` = enterAll on a "
                "still active framer) and static well-formedness WF + WFE (outlines without repetition); the full statement is "
-               "refuted by C06_counterexample_D3c (known finding D3c); shared auxiliaries (known finding D3d) are outside WF",
+               "refuted by C06_counterexample_D3c (known finding D3c); programs in which an auxiliary is named by several clauses are outside WF (after fixes D3b/D3d they are covered by the correspondence and the trace oracle only)",
                "`enter/exit events alternate` is stated through the ghost map `ent` / flag `dbl`, which the model updates in the "
                "same step that emits the `.enter` / `.exit` event (noteEnter / noteExit)",
                "the order of a taken transition (tracts, exits bottom-up, rexits, renters, enters top-down, activation) is "
@@ -517,7 +517,7 @@ class CHECK(core.Check):
             return False
         reply = core.Driver("flo").run([floeng.encode(case["prog"])])[0]
         flags = [l for l in reply.split("|") if l.startswith("G ")]
-        want = {"D3": "overlap=1", "D3b": "shared=1", "D3c": "left=1", "D3d": "shared=1"}.get(finding.get("id"))
+        want = {"D3": "overlap=1", "D3c": "left=1", "D3e": "both=1"}.get(finding.get("id"))
         return bool(flags) and want is not None and want in flags[0]
 
     def nontrivial(self, case, out):
